@@ -155,3 +155,10 @@ CHECKS = {
         "thorough": [{"test": "TestC20", "checks": 2500, "shards": 16, "module": "harness_v2"}],
     },
 }
+
+# C09 at scale: one rollback (both ways, same / new handle) that erases, or one DeleteVersionsTo that orphans, 70 000 -
+# 110 000 node entries in a single call (above every internal batching limit), then a fresh handle, a raw scan for left-over
+# node entries, the persisted index, and a further commit with the reference hash
+CHECKS["C09"]["quick"] = CHECKS["C09"]["quick"] + [{"test": "TestC09Big", "checks": 2, "shards": 2}]
+CHECKS["C09"]["thorough"] = CHECKS["C09"]["thorough"] + [{"test": "TestC09Big", "checks": 12, "shards": 4}]
+CHECKS["C09"]["rule"] += " | TestC09Big: 11 500-14 000 keys, every key rewritten in each of 3-4 further versions, then ONE rollback to version 1 (LoadVersionForOverwriting / DeleteVersionsFrom + load on the same or a new handle) or ONE DeleteVersionsTo(latest-1): 70 000-110 000 node entries erased or orphaned in a single call; a fresh handle must list exactly the surviving version with the reference hash and contents, the raw store must hold no node entry of an erased / deleted version, the persisted index exactly the surviving pairs, and the next commit must return the reference hash"
